@@ -17,6 +17,9 @@ def DataFrame_count (truth : Term → Bool) : Out :=
 /-- the decorators of dataiter/data_frame.py: DataFrame.count, outermost first -/
 def DataFrame_count_decorators : List String := []
 
+/-- the signature of dataiter/data_frame.py: DataFrame.count: parameters in order, with the source text of their defaults -/
+def DataFrame_count_signature : List String := ["self", "*colnames"]
+
 /-- dataiter/data_frame.py: DataFrame.group_by (sha256 of the function source: 2edbc614a7896e6a) -/
 def DataFrame_group_by (truth : Term → Bool) : Out :=
   let attr0_1' : Term := (Term.app "tuple" [(Term.sym "colnames")]);
@@ -25,5 +28,8 @@ def DataFrame_group_by (truth : Term → Bool) : Out :=
 
 /-- the decorators of dataiter/data_frame.py: DataFrame.group_by, outermost first -/
 def DataFrame_group_by_decorators : List String := []
+
+/-- the signature of dataiter/data_frame.py: DataFrame.group_by: parameters in order, with the source text of their defaults -/
+def DataFrame_group_by_signature : List String := ["self", "*colnames"]
 
 end DI.Gen
